@@ -88,6 +88,9 @@ def main():
         for k in ("at_diff", "at4_diff", "a4_diff"):
             if not (d[k] <= 1e-12 * max(d["aint_max"], d["maxabs"], 1e-300)):
                 return "%s = %.3g: the overload differs from the plain distributed product (max |A u| = %.3g) on %d processes" % (k, d[k], d["aint_max"], n)
+        # blocked type-1 matrix == scalar type-1 matrix (x) B
+        if not (d["blk_t1_err"] <= 1e-13 * max(d["t1_max"], 1e-300)):
+            return "blocked convert_to_1 differs from the scalar type-1 matrix (x) B by %.3g (max entry %.3g) on %d processes" % (d["blk_t1_err"], d["t1_max"], n)
         # base splitter (join/split): the joined vector is the undecomposed one, the input is left alone, split inverts join
         for k, ref in (("join_norm", "int_norm"), ("join_norm2", "int_norm"), ("int_norm_after_join", "int_norm"), ("aint_norm_after_join", "aint_norm")) if case.get("splitter") else ():
             if not (abs(d[k] - d[ref]) <= 1e-12 * max(abs(d[ref]), 1e-300)):
